@@ -415,6 +415,17 @@ int main(int argc, char** argv) {
                 for (size_t k = 0; k < taus.size(); ++k)
                     out << "o susctau " << a << " " << b << " " << c << " " << d << " " << hx::d(taus[k]) << " " << cplxStr(X0.of_tau(taus[k]))
                         << " " << cplxStr(X1.of_tau(taus[k])) << "\n";
+                {   // a copy of a computed object (with the disconnected part subtracted) is the same function
+                    std::vector<Susceptibility> copies;
+                    copies.push_back(X2);
+                    copies.push_back(X0);
+                    for (size_t k = 0; k < ns.size(); ++k)
+                        out << "o susccopy " << a << " " << b << " " << c << " " << d << " " << ns[k] << " " << cplxStr(X2(ns[k])) << " "
+                            << cplxStr(copies[0](ns[k])) << " " << cplxStr(X0(ns[k])) << " " << cplxStr(copies[1](ns[k])) << "\n";
+                    for (size_t k = 0; k < taus.size(); ++k)
+                        out << "o susccopytau " << a << " " << b << " " << c << " " << d << " " << hx::d(taus[k]) << " " << cplxStr(X2.of_tau(taus[k])) << " "
+                            << cplxStr(copies[0].of_tau(taus[k])) << " " << cplxStr(X0.of_tau(taus[k])) << " " << cplxStr(copies[1].of_tau(taus[k])) << "\n";
+                }
             } else if (cmd == "tpc") {
                 std::string sub; is >> sub;
                 if (sub == "new") {
